@@ -154,6 +154,24 @@ def gen(tier, rng, boost=1):
         ops += reads(rng, "ts", enc_ext(-1, be(nsbad, 4) + be(5, 8), 1) + TAIL, allpol=True)
         ops += reads(rng, "ts", enc_ext(-1, be(5, 8) + be(nsbad, 4), 1) + TAIL, allpol=True)
     ops += reads(rng, "ts", enc_ext(-1, be(U(32) - 1, 4) + be(5, 8), 1) + TAIL, allpol=True)
+    # nanoseconds at the validity threshold 999999999 +-2 and at the field limits: timestamp 64 (30-bit field), the
+    # specification's timestamp 96 (nanoseconds first, uint32) and the library's 12-byte layout (nanoseconds last, int32:
+    # INT32_MAX, INT32_MIN .. -1 are the values from 2^31-1 upwards) in every ext format able to hold the payload
+    ns_edges = [999999997, 999999998, 999999999, 1000000000, 1000000001, U(30) - 2, U(30) - 1]
+    ns_edges32 = ns_edges + [U(30), U(31) - 1, U(31), U(31) + 1, U(32) - 1000000000, U(32) - 2, U(32) - 1]
+    for sec in (5, 0, U(34) - 1, rng.randrange(0, U(34))):
+        for nsv in ns_edges + [rng.randrange(1000000000, U(30)) for _ in range(4)]:
+            for k in ext_formats(8):
+                ops += reads(rng, "ts", enc_ext(-1, be((nsv << 34) | sec, 8), k) + TAIL, allpol=(sec == 5 and k == 0))
+    for sec in (5, -1, U(34), -U(63), U(63) - 1, rng.randrange(-U(63), U(63))):
+        for nsv in ns_edges32 + [rng.randrange(1000000000, U(32)) for _ in range(4)]:
+            for k in ext_formats(12):
+                ops += reads(rng, "ts", enc_ext(-1, be(nsv, 4) + be(sec, 8), k) + TAIL, allpol=(sec == 5))
+                ops += reads(rng, "ts", enc_ext(-1, be(sec, 8) + be(nsv, 4), k) + TAIL, allpol=(sec == 5))
+    # random 8- and 12-byte payloads (most have out-of-range nanoseconds in at least one of the readings)
+    for _ in range((150 if not thorough else 5000) * boost):
+        n = rng.choice((8, 12))
+        ops += reads(rng, "ts", enc_ext(-1, rand_bytes(rng, n), rng.choice(ext_formats(n))) + TAIL)
     for n in (0, 1, 2, 3, 5, 16, 13):
         for k in ext_formats(n):
             ops += reads(rng, "ts", enc_ext(-1, rand_bytes(rng, n), k) + TAIL, allpol=True)
